@@ -3964,15 +3964,28 @@ mod verif_replay_read_errors_mod {
         let cases: Vec<(&str, Vec<u8>)> = vec![
             ("end of stream", vec![]),
             ("end of stream inside a frame", vec![3, 0, 0, 20, 2, 0xf0]),
+            ("end of stream inside the TPKT header", vec![3, 0, 0]),
+            ("end of stream after one header byte", vec![3]),
+            ("end of stream inside a fast-path frame", vec![0, 9, 1, 2]),
             ("disconnect provider ultimatum", vec![3, 0, 0, 9, 2, 0xf0, 0x80, 0x21, 0x80]),
             ("unknown MCS opcode", vec![3, 0, 0, 9, 2, 0xf0, 0x80, 0xff, 0xff]),
             ("bad X.224 data header", vec![3, 0, 0, 9, 2, 0xf0, 0x00, 0x68, 0x00]),
         ];
         for (what, bytes) in cases {
-            let r = client(bytes).read(|_e| {});
-            assert!(r.is_err(), "RdpClient::read returned Ok on {}", what);
-            if what == "disconnect provider ultimatum" {
-                match r { Err(Error::RdpError(e)) => assert!(e.kind() == RdpErrorKind::Disconnect, "the ultimatum is not reported as Disconnect"), _ => panic!("the ultimatum is not reported as an RDP error") }
+            // a read that never returns is the failure this replay must be able to show: run it under a deadline
+            let (tx, rx) = std::sync::mpsc::channel();
+            let w = what.to_string();
+            std::thread::spawn(move || {
+                let r = client(bytes).read(|_e| {});
+                let kind = match &r { Err(Error::RdpError(e)) => Some(e.kind() == RdpErrorKind::Disconnect), _ => None };
+                let _ = tx.send((r.is_err(), kind));
+            });
+            match rx.recv_timeout(std::time::Duration::from_secs(6)) {
+                Err(_) => panic!("RdpClient::read did not return within 6 s on {}", w),
+                Ok((is_err, kind)) => {
+                    assert!(is_err, "RdpClient::read returned Ok on {}", what);
+                    if what == "disconnect provider ultimatum" { assert!(kind == Some(true), "the ultimatum is not reported as Disconnect"); }
+                }
             }
         }
     }
@@ -4254,4 +4267,115 @@ def no_from_trame_in_layouts(ctx, mir, stats):
     obs.append({"id": "layouts:no-from_trame", "ok": ok, "functions": sorted({x[0] for x in bad}), "where": "record constructors", "needs_native": True, "native": None if ok else SESSION_NATIVE,
                 "detail": "none of the %d record constructors calls Array::from_trame: arrays of a parsed PDU are read through their element factory" % len(layouts.LAYOUTS) if ok else
                 "%s builds an array with Array::from_trame: parsing a server PDU into this layout calls a factory that panics (\"Try reading a non empty array\")" % ", ".join("%s@%s" % x for x in bad)})
+    return obs
+
+
+# --------------------------------------------------------------------------
+# C18 / C05 / C06: what each counted field announces to the record container (read side), against the structure definitions
+# --------------------------------------------------------------------------
+ANNOUNCE_TABLE = {
+    # (constructor, announced field): (k, mul)  meaning announced size = saturating_sub(value, k) * mul ... expressed below as (fn, text)
+    ("av_pair", "Value"): (0, 1, "AvLen is the size of Value (MS-NLMP 2.2.2.1)"),
+    ("server_network_data", "channelIdArray"): (0, 2, "channelCount 16-bit ids follow; the optional 2-byte pad is not part of the array (MS-RDPBCGR 2.2.1.4.4)"),
+    ("rdp_extended_infos", "clientAddress"): (0, 1, "cbClientAddress is the size of clientAddress, terminator included"),
+    ("preamble", "message"): (4, 1, "wMsgSize includes the 4-byte preamble (MS-RDPBCGR 2.2.1.12.1.1)"),
+    ("license_binary_blob", "blobData"): (0, 1, "wBlobLen is the size of blobData"),
+    ("ts_demand_active_pdu", "sourceDescriptor"): (0, 1, "lengthSourceDescriptor is the size of sourceDescriptor"),
+    ("ts_demand_active_pdu", "capabilitySets"): (4, 1, "lengthCombinedCapabilities includes numberCapabilities and pad2Octets"),
+    ("ts_confirm_active_pdu", "sourceDescriptor"): (0, 1, "lengthSourceDescriptor is the size of sourceDescriptor"),
+    ("ts_confirm_active_pdu", "capabilitySets"): (4, 1, "lengthCombinedCapabilities includes numberCapabilities and pad2Octets"),
+    ("ts_deactivate_all_pdu", "sourceDescriptor"): (0, 1, "lengthSourceDescriptor is the size of sourceDescriptor"),
+    ("share_data_header", "payload"): (18, 1, "uncompressedLength includes the share control header (6) and the share data header (12)"),
+    ("share_control_header", "pduMessage"): (6, 1, "totalLength includes the 6-byte share control header"),
+    ("ts_fp_update", "updateData"): (0, 1, "size is the size of updateData (MS-RDPBCGR 2.2.9.1.2.1)"),
+    ("ts_bitmap_data", "bitmapDataStream"): (0, 1, "bitmapLength is the size of the optional compression header plus bitmapDataStream; without the header it is the stream"),
+    ("ts_colorpointerattribute", "andMaskData"): (0, 1, "lengthAndMask is the size of andMaskData"),
+    ("ts_colorpointerattribute", "xorMaskData"): (0, 1, "lengthXorMask is the size of xorMaskData"),
+    ("capability_set", "capabilitySet"): (4, 1, "lengthCapability includes the 4-byte capability header"),
+}
+
+
+def announce_table(natives=None):
+    natives = natives or {}
+
+    def fn(ctx, mir, stats):
+        obs = []
+        seen = set()
+        for g in mir:
+            m = re.match(r"^(\w+)::\{closure#\d+\}$", g.name)
+            if not m or not (g.ret or "").endswith("MessageOption"):
+                continue
+            owner = m.group(1)
+            ce = SymExec(g, stats, call_model=closure_call_model).run()
+            for q in ce.finished:
+                for k, ev in enumerate(q.events):
+                    if not (ev[0] == "assign" and ev[3].startswith("MessageOption::Size(")):
+                        continue
+                    parts = split_top(ev[3][len("MessageOption::Size("):-1])
+                    nm = re.search(r'const "(\w+)"', resolve_source(q.events, k, parts[0], depth=6))
+                    field = nm.group(1) if nm else "?"
+                    key = (owner, field)
+                    if key not in ANNOUNCE_TABLE:
+                        continue
+                    sz = ce.operand(q, parts[1])
+                    fv = q.env.get("field.inner")
+                    if sz is None or fv is None or "field.inner" not in q.env or any(str(x).startswith("ret_") for x in __import__("z3").z3util.get_vars(sz)):
+                        continue      # size taken from another source than the counted field itself (e.g. a nested header): not in the table's scope
+                    kk, mul, why = ANNOUNCE_TABLE[key]
+                    v64 = z3.ZeroExt(sz.size() - fv.size(), fv)
+                    exp = z3.If(z3.ULT(v64, z3.BitVecVal(kk, 64)), z3.BitVecVal(0, 64), v64 - z3.BitVecVal(kk, 64)) * z3.BitVecVal(mul, 64)
+                    verdict, mdl, smt = ce.check(q, [sz != exp], "announced size")
+                    cvc5_check(smt, verdict, stats)
+                    seen.add(key)
+                    nat = next((n for rx, n in natives.items() if re.search(rx, owner)), None)
+                    obs.append({"id": "announce:%s.%s" % key, "ok": verdict == "unsat", "functions": [g.name], "where": g.name, "cex": mdl, "needs_native": False, "native": None if verdict == "unsat" else nat,
+                                "detail": "for every value v of the counted field the container is told %s bytes for `%s` (%s)" % (("max(v - %d, 0)" % kk if kk else "v") + (" * %d" % mul if mul != 1 else ""), field, why) if verdict == "unsat" else
+                                "for field value %s the size announced for `%s` is not %s: %s" % (mdl, field, ("max(v - %d, 0)" % kk if kk else "v") + (" * %d" % mul if mul != 1 else ""), why)})
+        missing = sorted(set(ANNOUNCE_TABLE) - seen)
+        obs.append({"id": "announce:all-found", "ok": not missing, "functions": [], "where": "record constructors", "needs_native": True, "native": None,
+                    "detail": "all %d counted fields of the table announce a size" % len(ANNOUNCE_TABLE) if not missing else "counted fields without a recognised size announcement: %s" % missing})
+        return obs
+    return fn
+
+
+
+# --------------------------------------------------------------------------
+# C01: the server's CredSSP messages are parsed as strict DER
+# --------------------------------------------------------------------------
+DER_NATIVE = _native("verif_replay_cssp_reencoded_reply", "src/nla/cssp.rs", """
+        // an honest-looking last-round TSRequest in DER, then the same value in three BER re-encodings: only the DER form may be parsed
+        let token: Vec<u8> = (0u8..40).collect();
+        let der = to_der(&sequence![
+            "version" => ExplicitTag::new(Tag::context(0), 2 as Integer),
+            "pubKeyAuth" => ExplicitTag::new(Tag::context(3), token.clone() as OctetString)
+        ]);
+        assert_eq!(read_ts_validate(&der).unwrap(), token, "the DER form is not accepted");
+        assert!(der[1] < 0x80);
+        // (a) outer length in the long form although it fits the short form
+        let mut a = vec![der[0], 0x81, der[1]]; a.extend_from_slice(&der[2..]);
+        // (b) outer SEQUENCE with indefinite length
+        let mut b = vec![der[0], 0x80]; b.extend_from_slice(&der[2..]); b.extend_from_slice(&[0, 0]);
+        // (c) the INTEGER 2 encoded on two bytes (00 02)
+        let mut c = der.clone();
+        let p = c.windows(3).position(|w| w == [0x02, 0x01, 0x02]).unwrap();
+        c.splice(p..p + 3, vec![0x02, 0x02, 0x00, 0x02]);
+        c[1] += 1; c[3] += 1;
+        for (what, m) in [("long-form length", a), ("indefinite length", b), ("non-minimal INTEGER", c)].iter() {
+            assert!(read_ts_validate(m).is_err(), "a last-round reply re-encoded with a {} is parsed", what);
+            assert!(read_ts_server_challenge(m).is_err(), "a TSRequest re-encoded with a {} is parsed", what);
+        }""")
+
+
+def strict_der(ctx, mir, stats):
+    obs = []
+    for name in ("read_ts_server_challenge", "read_ts_validate"):
+        fs = [f for f in mir if re.match(r"^%s(::\{closure#\d+\})*$" % name, f.name)]
+        if not fs:
+            raise Inconclusive("ENCODING-FAILED: %s not found" % name)
+        calls = [f.blocks[b].t["func"] for f in fs for b in f.order if f.blocks[b].t and f.blocks[b].t["kind"] == "call" and not f.blocks[b].cleanup]
+        der = [c for c in calls if re.search(r"(^|::)parse_der::<|(^|::)from_der$", c)]
+        ber = [c for c in calls if re.search(r"(^|::)parse_ber(_general)?::<|(^|::)from_ber$|BERMode::Ber", c)]
+        ok = len(der) >= 1 and not ber
+        obs.append({"id": "cssp:%s:strict-der" % name, "ok": ok, "functions": [f.name for f in fs], "where": name, "needs_native": True, "native": None if ok else DER_NATIVE,
+                    "detail": "%s parses through yasna::parse_der / from_der only" % name if ok else "%s parses through %s" % (name, (ber or calls)[:2])})
     return obs
